@@ -97,7 +97,7 @@ theorem facts_shape :
     ∧ latestOnlyRid = "binary.BigEndian.Uint64(k[14:])" := by decide
 
 -- non-vacuity: a feed with a redundant write and a repeated id
-example : let e1 : Ent := ⟨1, false, [], "a"⟩; let e1' : Ent := ⟨1, false, [], "b"⟩
+example : let e1 : Ent := ⟨1, false, [], "a", []⟩; let e1' : Ent := ⟨1, false, [], "b", []⟩
     let db := storeBatch (storeBatch {} 2 10 [e1, e1]) 2 20 [e1, e1', e1']
     (changesPage db 2 0 0 false).1 = [e1, e1'] ∧ (changesPage db 2 0 1 false) = ([e1], 1)
     ∧ (changesPage db 2 0 0 true).1 = [e1'] := by decide
